@@ -198,6 +198,7 @@ ensures
 """,
     edits=TRACE + [
         Ins('body_start', None, """
+reveal(sigvec_ok);
 broadcast use axiom_stateid_cmp, axiom_ccid_cmp;
 let ghost tm = transitions@;
 let ghost p = pv(partition@);
@@ -391,6 +392,85 @@ proof {
 }""", why='TRUSTED std contract through a wrapper: BTreeMap::into_values().collect::<Vec<_>>() (the call is moved verbatim into an external_body function)'),
     ])
 
+new_partition = Fn(F_MIN, 'Minimizer', 'calculate_new_partition', ret='r', props=P, attrs='#[verifier::loop_isolation(false)] #[verifier::allow_complex_invariants]',
+    spec="""
+requires
+    """ + PART_PRE + """
+    all_nonempty(pv(partition@)),
+ensures
+    // every group is replaced, in order, by the pieces split_group cuts it into
+    exists|org: Seq<int>| #[trigger] refined(transitions@, pv(partition@), pv(r@), org, partition@.len() as int),
+""",
+    edits=TRACE + [
+        Ins('body_start', None, """
+let ghost tm = transitions@;
+let ghost old = pv(partition@);
+let ghost n = choose|n: int| part_ok(old, n) && forall|s: StateID, cc: CharClassID, t: StateID| #[trigger] tm_edge(tm, s, cc, t) ==> t.0 < n;
+let ghost mut org: Seq<int> = Seq::empty();
+proof {
+    assert(groups_disjoint(old)) by {
+        assert forall|g: int, h: int, x: StateID| 0 <= g < old.len() && 0 <= h < old.len() && #[trigger] old[g].contains(x) && #[trigger] old[h].contains(x) implies g == h by {
+            assert(StateID(x.0 as int as u32) == x);
+            assert(in_grp(old, g, x.0 as int) && in_grp(old, h, x.0 as int));
+        }
+    }
+}
+"""),
+        Ins('after_stmt', 'let mut new_partition = $_;', """
+proof { assert(pv(new_partition@) =~= Seq::<Set<StateID>>::empty()); assert(refined(tm, old, pv(new_partition@), org, 0)); }
+"""),
+        Replace('E13+E11', 'for (index, group) in partition.iter().enumerate() { Self::split_group($args).into_iter().for_each(|new_group| { $body }); }', """
+let mut __i: usize = 0;
+while __i < partition.len()
+    //@label new_partition.groups
+    invariant
+        0 <= __i <= partition@.len(), old == pv(partition@), tm == transitions@, groups_disjoint(old), all_nonempty(old),
+        refined(tm, old, pv(new_partition@), org, __i as int),
+    decreases partition@.len() - __i
+{
+    let index: usize = __i;
+    let group = &partition[__i];
+    __i += 1;
+    let ghost new0 = pv(new_partition@);
+    let ghost org0 = org;
+    let __pieces = Self::split_group($args);
+    let ghost pcs = pv(__pieces@);
+    proof { assert(old[index as int] == group@); }
+    let mut __it1 = __pieces.into_iter();
+    let ghost prem = __it1.remaining();
+    loop
+        invariant
+            __it1.obeys_prophetic_iter_laws(), __it1.decrease() is Some,
+            prem.len() == pcs.len(), forall|q: int| 0 <= q < prem.len() ==> (#[trigger] prem[q])@ == pcs[q],
+            __it1.remaining().len() <= prem.len(),
+            forall|q: int| 0 <= q < __it1.remaining().len() ==> #[trigger] __it1.remaining()[q] == prem[prem.len() - __it1.remaining().len() + q],
+            pv(new_partition@) =~= new0 + pcs.take(prem.len() - __it1.remaining().len()),
+        ensures __it1.remaining().len() == 0, pv(new_partition@) =~= new0 + pcs,
+        decreases __it1.decrease()->0
+    {
+        proof { if __it1.remaining().len() == 0 { assert(pcs.take(prem.len() as int) =~= pcs); } assert(true); }
+        let ghost k0 = prem.len() - __it1.remaining().len();
+        let Some(new_group) = __it1.next() else { break };
+        proof { assert(new_group@ == pcs[k0]); assert(pcs.take(k0 + 1) =~= pcs.take(k0).push(pcs[k0])); }
+        let ghost np0 = new_partition@;
+        $body
+        proof {
+            assert(new_partition@ == np0.push(new_group));
+            assert(pv(new_partition@) =~= pv(np0).push(pcs[k0]));
+            assert((new0 + pcs.take(k0)).push(pcs[k0]) =~= new0 + pcs.take(k0 + 1));
+        }
+    }
+    proof {
+        lemma_refine_step(tm, old, new0, org0, index as int, pcs);
+        org = org0 + Seq::new(pcs.len(), |i: int| index as int);
+    }
+}
+""", why='`for (i, x) in v.iter().enumerate() { B }` as an index loop (E13); `it.into_iter().for_each(|g| { B })` is `for g in it { B }` (std definition), then E1; closure body kept verbatim'),
+        Tail("""
+proof { assert(refined(tm, old, pv(__res@), org, partition@.len() as int)); }
+"""),
+    ])
+
 FUNCS = [
     Raw(umin.UNIT['items'][0].text.replace('pub type StateGroup = BTreeSet<StateID>;\n', '').replace('pub struct Minimizer;\n', ''), label='trusted std contract: Iterator::position; derived Ord of StateID'),
     Fn(F_MIN, 'TransitionsToPartitionGroups', 'new', ret='r', props=P, spec='ensures r.0@.len() == 0', external_body=True, trusted_reason='Self::default() of the derived Default: an empty vector (rule E4)'),
@@ -400,6 +480,7 @@ FUNCS = [
     initial_partition,
     build_sig,
     split_group,
+    new_partition,
 ]
 
 UNIT = dict(
